@@ -15,6 +15,9 @@ func init() {
 
 var ab = []string{"a", "b"}
 
+var errKindCycle = []int{scen.ESentinel, scen.EWrapped, scen.ECustom, scen.EUncomparable, scen.ESentinel, scen.EJoined, scen.ECustom, scen.ETemporary, scen.EWrapped, scen.ECtxLike}
+var errKindName = map[int]string{scen.ESentinel: "sentinel", scen.EWrapped: "wrapped", scen.ECustom: "custom", scen.EUncomparable: "uncomparable-struct", scen.EJoined: "joined", scen.ETemporary: "temporary", scen.ECtxLike: "wraps-a-context-error"}
+
 // tableScenario builds the scenario of one point of the exhaustive space:
 // nn nodes, 2 actions, target of every (node, action) ∈ {unconnected, nil, each node}, per-node scripts.
 func tableScenario(nn, table, script int) *scen.Scenario {
@@ -276,13 +279,13 @@ func runC04(c *Cfg) {
 			for which := 0; which < 3; which++ {
 				v := base.Clone()
 				makeFail(v, p.node, p.visit, which)
-				v.Nodes[p.node].ErrKind = (i + which + p.node) % scen.NumErrKinds
+				v.Nodes[p.node].ErrKind = errKindCycle[(i+which+p.node)%len(errKindCycle)]
 				outs, vmrs := judgeFor(c, "C04", "inject", v)
 				o := &outs[0]
 				r.Count("inject.runs", 1)
 				r.Count(fmt.Sprintf("inject.depth%d", p.depth), 1)
 				r.Count("inject."+[]string{"prep", "exec-phase", "post"}[which], 1)
-				r.Count("inject.errkind."+[]string{"sentinel", "wrapped", "custom"}[v.Nodes[p.node].ErrKind], 1)
+				r.Count("inject.errkind."+errKindName[v.Nodes[p.node].ErrKind], 1)
 				if !o.ErrNil {
 					r.Count("inject.run_failed_as_expected", 1)
 				}
